@@ -200,7 +200,7 @@ class SpectralDensity(DFunction, UnitsManaged):
                     
                 elif ftype == "Underdamped":
            
-                    self._make_underdamped(params)
+                    self._make_underdamped(prms)
                     
                 elif ftype == "B777":
                     
@@ -286,7 +286,7 @@ class SpectralDensity(DFunction, UnitsManaged):
     def _make_underdamped(self, params, values=None):
         SPEED_OF_LIGHT = 2.99*(10**8)
  
-        # use the units in which params was defined
+        # params are in internal units here
         omega0 = params["freq"]
         lamb = params["reorg"]
         gamma = params["gamma"]
